@@ -10,3 +10,4 @@ import TlxVerif.Props.C02
 #print axioms TlxVerif.C02.inv_erase_one_partial
 #print axioms TlxVerif.C02.inv_erase
 #print axioms TlxVerif.C02.inv_all_histories
+#print axioms TlxVerif.C02.inv_bulk_load
